@@ -2,7 +2,8 @@
 
 from __future__ import annotations
 
-from typing import TYPE_CHECKING, Any, Generic, Literal, TypeVar
+from copy import deepcopy
+from typing import TYPE_CHECKING, Any, Generic, Literal, Self, TypeVar
 
 import numpy as np
 
@@ -16,6 +17,7 @@ from quansino.moves.composite import CompositeMove
 from quansino.moves.core import BaseMove
 from quansino.operations.displacement import Ball
 from quansino.protocols import Integrator, Operation
+from quansino.registry import get_typed_class
 from quansino.utils.dynamics import maxwell_boltzmann_distribution
 
 if TYPE_CHECKING:
@@ -348,6 +350,53 @@ class HamiltonianDisplacementMove(
 
     def __call__(self, context: HContextType) -> bool:
         return self.attempt_displacement(context)
+
+    def to_dict(self) -> dict[str, Any]:
+        """
+        Convert the `HamiltonianDisplacementMove` object to a dictionary.
+
+        Returns
+        -------
+        dict[str, Any]
+            A dictionary representation of the `HamiltonianDisplacementMove` object.
+        """
+        dictionary = super().to_dict()
+        dictionary["kwargs"].pop("apply_constraints", None)
+
+        return dictionary
+
+    @classmethod
+    def from_dict(cls, data: dict[str, Any]) -> Self:
+        """
+        Create a `HamiltonianDisplacementMove` object from a dictionary; its operation is an
+        integrator, not an operation.
+
+        Parameters
+        ----------
+        data : dict[str, Any]
+            The dictionary representation of the object.
+
+        Returns
+        -------
+        Self
+            The `HamiltonianDisplacementMove` object created from the dictionary.
+        """
+        kwargs = deepcopy(data.get("kwargs", {}))
+        kwargs.pop("apply_constraints", None)
+
+        if "operation" in kwargs:
+            integrator_data = kwargs["operation"]
+            integrator_class: type[Integrator] = get_typed_class(
+                integrator_data["name"], Integrator
+            )
+            kwargs["operation"] = integrator_class.from_dict(integrator_data)
+
+        instance = cls(**kwargs)
+
+        for key, value in data.get("attributes", {}).items():
+            setattr(instance, key, value)
+
+        return instance
 
     @property
     def default_operation(self) -> Integrator:
